@@ -18,7 +18,9 @@ StepDone(d) == Step /\ obs.e = "Step" /\ obs.stepDo = d
 T_C01_ServedOnceRightService == Step => (~obs.dupServed /\ ~obs.wrongService)
 T_C01_AllServed == (StepDone("await_started") \/ StepDone("stress")) => obs.stepOk
 \* C02_Bound: per worker thread, connections in progress never exceed max_concurrent_connections
-T_C02_Bound == Step => obs.maxLivePerWorker <= obs.limit
+\* (stressMaxLive: the largest number of service futures alive at once on one worker thread, counted inside the services
+\* during the stress phases)
+T_C02_Bound == Step => (obs.maxLivePerWorker <= obs.limit /\ obs.stressMaxLive <= obs.limit)
 \* C03_NoLostWake: whenever the scenario waits for a waiting connection to be served after a release, it is
 T_C03_NoLostWake == (StepDone("await_started") \/ StepDone("stress")) => obs.stepOk
 \* C04: with nobody saturated k connections spread evenly over the workers
